@@ -21,6 +21,7 @@ Assumed by the translation (not by this proof): Go `int`/`int64` arithmetic does
 -/
 import SemaModel.C15.Model
 import SemaModel.Generated.Placement
+import SemaModel.Generated.Quota
 namespace Sema.C15
 open Sema Sema.Gen.Placement
 
@@ -237,5 +238,105 @@ example :
     distributePoints 10 [⟨"s", 50, 1⟩] [⟨List.replicate 16 0, List.replicate 4 0⟩, ⟨List.replicate 16 0, List.replicate 4 0⟩,
         ⟨List.replicate 16 0, List.replicate 14 0⟩] 100 2 (fun n => if n = 0 then .ok "n0" else .error "full") =
       .ret (.ok [("s", [0, 1]), ("n0", [1, 3])], 1) := by rfl
+
+/-! ### the Go map of the assignments is the model's list (audit: "the `as` ↔ Go-map bridge is missing") -/
+
+namespace Tie
+
+/-- `m[k] = v` on a map without the key `k` appends the entry -/
+theorem mapSet_absent {ν : Type} (m : List (String × ν)) (k : String) (v : ν) (h : k ∉ m.map (·.1)) :
+    Go.mapSet m k v = m ++ [(k, v)] := by
+  induction m with
+  | nil => rfl
+  | cons e rest ih =>
+    obtain ⟨k', v'⟩ := e
+    have hne : k' ≠ k := fun e => h (by simp [e])
+    have hr : k ∉ rest.map (·.1) := fun hm => h (by simp [hm])
+    simp [Go.mapSet, hne, ih hr]
+
+/-- storing assignments with pairwise distinct shard ids, none of them a key yet, appends them in order -/
+theorem assignMap_nodup (as : List Assign) (m : List (String × List Int))
+    (hnd : (as.map (·.shard.id)).Nodup) (hdis : ∀ a ∈ as, a.shard.id ∉ m.map (·.1)) :
+    assignMap as m = m ++ as.map fun a => (a.shard.id, [(a.lo : Int), (a.hi : Int)]) := by
+  induction as generalizing m with
+  | nil => simp [assignMap]
+  | cons a rest ih =>
+    have hnd' := List.nodup_cons.mp hnd
+    have ha : a.shard.id ∉ m.map (·.1) := hdis a List.mem_cons_self
+    show assignMap rest (Go.mapSet m a.shard.id [(a.lo : Int), (a.hi : Int)]) = _
+    rw [mapSet_absent m _ _ ha, ih _ hnd'.2]
+    · simp
+    · intro b hb
+      simp only [List.map_append, List.map_cons, List.map_nil, List.mem_append, List.mem_singleton, not_or]
+      refine ⟨hdis b (List.mem_cons_of_mem _ hb), fun e => hnd'.1 ?_⟩
+      exact List.mem_map.mpr ⟨b, hb, e⟩
+
+end Tie
+
+/-- **the Go map `shardAssignments` IS the model's assignment list** when no two assignments share a shard
+id: built by `shardAssignments[id] = [2]int{lo, hi}` in loop order (`assignMap … []`, the map primitive
+`Go.mapSet` of the generated `Placement` module), it has exactly one entry per assignment, in order, with that
+assignment's range — nothing is overwritten, nothing is dropped. -/
+theorem C15_map_bridge (as : List Assign) (hnd : (as.map (·.shard.id)).Nodup) :
+    assignMap as [] = as.map fun a => (a.shard.id, [(a.lo : Int), (a.hi : Int)]) := by
+  have := Tie.assignMap_nodup as [] hnd (by simp)
+  simpa using this
+
+/-- **`C15_tie` read off as the Go result**: if the model returns the assignments `as` after `c` shard
+creations and the shard ids involved (existing and created) are pairwise distinct (`C15_ids_nodup`'s
+hypothesis: C01-style uniqueness of the collection record + fresh uuids from `createShardFn`), the function
+generated from `cluster/placement.go` returns the map holding exactly these assignments — so every theorem of
+`Props.lean` about `as` (partition, exactly-one, limits, order) is a theorem about the map the Go code returns. -/
+theorem C15_tie_assignments (fuel : Nat) (maxS maxC : Int) (cb : Nat → Except String String)
+    (shards : List shardInfo) (points : List Point) (as : List Assign) (c : Nat)
+    (h : distribute fuel maxS maxC (toMk cb) (shards.map toShard) (points.map psize) = .ok as c)
+    (nd : (as.map (·.shard.id)).Nodup) :
+    distributePoints fuel shards points maxS maxC cb =
+      .ret (.ok (as.map fun a => (a.shard.id, [(a.lo : Int), (a.hi : Int)])), c) := by
+  rw [C15_tie, h]
+  simp only [toGo, toGoFrom, C15_map_bridge as nd]
+
+/-- the hypothesis cannot be dropped: with a duplicated shard id (`[a, a]`, limit one point per shard) the
+model reports two ranges — a partition of the two points — while the generated function returns a map with ONE
+entry: the second assignment has overwritten the first, point 0 is silently not inserted -/
+example :
+    distribute 6 100 1 (fun _ => none) [⟨"a", 0, 0⟩, ⟨"a", 0, 0⟩] [20, 20] =
+      .ok [⟨⟨"a", 0, 0⟩, 0, 1⟩, ⟨⟨"a", 0, 0⟩, 1, 2⟩] 0 ∧
+    distributePoints 6 [⟨"a", 0, 0⟩, ⟨"a", 0, 0⟩] [⟨List.replicate 16 0, List.replicate 4 0⟩, ⟨List.replicate 16 0, List.replicate 4 0⟩]
+      100 1 (fun _ => .error "no") = .ret (.ok [("a", [1, 2])], 0) := by
+  constructor
+  · decide
+  · rfl
+
+/-! ### the quota test of `ClusterNode.InsertPoints` (generated fragment `Gen.Quota.InsertPoints_quota`) -/
+
+def toShardQ (s : Gen.Quota.shardInfo) : Shard := ⟨s.Id, s.Size, s.PointCount⟩
+
+theorem Tie.forRange_sum (shards : List Gen.Quota.shardInfo) (k : Nat) (acc : Int) :
+    Go.forRangeAux shards k acc (fun _ shard totalPoints => totalPoints + shard.PointCount) =
+      acc + total (shards.map toShardQ) := by
+  induction shards generalizing k acc with
+  | nil => simp [Go.forRangeAux, total]
+  | cons s rest ih =>
+    rw [Go.forRangeAux, ih]
+    simp [total, toShardQ]
+    omega
+
+/-- **the quota test of the model is the translated Go fragment**: the statements of
+`ClusterNode.InsertPoints` from `totalPoints := int64(0)` to the comparison with
+`col.UserPlan.MaxCollectionPointCount` (regenerated from `cluster/actions.go` on every run) fail with
+`ErrQuotaReached` exactly when the model's `overQuota` says so, and do nothing else (no write: the fragment
+has no effect but its result) -/
+theorem C15_tie_quota (shards : List Gen.Quota.shardInfo) (points : List Gen.Quota.Point) (col : Gen.Quota.Collection) :
+    Gen.Quota.InsertPoints_quota shards points col =
+      if overQuota (shards.map toShardQ) points.length col.UserPlan.MaxCollectionPointCount
+      then .error "quota reached" else .ok () := by
+  unfold Gen.Quota.InsertPoints_quota overQuota
+  simp only [Go.forRange, Tie.forRange_sum, Go.len, Int.zero_add]
+
+/-- non-vacuity: at the boundary (3 stored + 2 new against a quota of 4 / of 5) -/
+example : Gen.Quota.InsertPoints_quota [⟨"a", 0, 3⟩] [⟨[], []⟩, ⟨[], []⟩] ⟨⟨4⟩⟩ = .error "quota reached" ∧
+    Gen.Quota.InsertPoints_quota [⟨"a", 0, 3⟩] [⟨[], []⟩, ⟨[], []⟩] ⟨⟨5⟩⟩ = .ok () := by
+  constructor <;> rfl
 
 end Sema.C15
